@@ -18,6 +18,8 @@ extern crate dyn_clone;
 pub mod allocations;
 pub mod builtin;
 mod compilation_scope;
+#[cfg(xray_verif)]
+pub use compilation_scope::verif_cell_log;
 pub mod compile_err;
 pub mod native_types;
 pub mod parser;
